@@ -46,6 +46,44 @@ def set_loop_ordinals(fn_node):
         n._ordinal = k
 
 
+def loop_skeleton(fn_node):
+    """the loops and yields of a function in source order, each with the nested function it is in, its nesting depth and its
+    kind.  Loop specifications are attached to loops by ordinal and yield clauses to yields by position, so a function whose
+    skeleton differs from the one recorded in /verif/repo_baseline.json (the code the contract was written for) cannot be
+    judged by that contract: its specifications would be applied to other loops than the ones they describe."""
+    out = []
+
+    def walk(node, depth, path):
+        for ch in ast.iter_child_nodes(node):
+            if isinstance(ch, (ast.FunctionDef, ast.AsyncFunctionDef)):
+                walk(ch, 0, path + '/' + ch.name)
+            elif isinstance(ch, (ast.While, ast.For, ast.AsyncFor)):
+                out.append(f'{path}:{depth}:{type(ch).__name__}' + ('+else' if ch.orelse else ''))
+                walk(ch, depth + 1, path)
+            elif isinstance(ch, (ast.Yield, ast.YieldFrom)):
+                out.append(f'{path}:{depth}:yield')
+                walk(ch, depth, path)
+            else:
+                walk(ch, depth, path)
+    walk(fn_node, 0, fn_node.name)
+    return out
+
+
+_BASE_SKEL = None
+
+
+def baseline_skeletons():
+    global _BASE_SKEL
+    if _BASE_SKEL is None:
+        import json, os
+        bp = os.path.join(os.path.dirname(os.path.dirname(os.path.abspath(__file__))), 'repo_baseline.json')
+        try:
+            _BASE_SKEL = json.load(open(bp)).get('loop_skeletons', {})
+        except (OSError, ValueError):
+            _BASE_SKEL = {}
+    return _BASE_SKEL
+
+
 def ast_hash(node):
     return hashlib.sha256(ast.dump(node, include_attributes=False).encode()).hexdigest()[:16]
 
@@ -64,6 +102,13 @@ def verify_contract(c, src_index, unroll=0, timeout_ms=20000, registry=REGISTRY,
     set_loop_ordinals(fnode)
     first = True
     vacuous = False
+    base_skel = baseline_skeletons().get(c.name)
+    if base_skel is not None and base_skel != loop_skeleton(fnode):
+        # (found by the behaviour-preserving refactorings benign/C19-b1 and benign/C07-b1: a merged loop / a while turned into
+        # for-else made obligations of the OLD loops fail on code that behaves the same)
+        ex.errors.append('unsupported: the loop / yield structure of the function differs from the one its loop specifications were '
+                         f'written for (then {base_skel}, now {loop_skeleton(fnode)})')
+        ex.worklist.clear()
     while ex.worklist:
         prefix = ex.worklist.pop()
         if ex.paths >= max_paths:
@@ -108,6 +153,19 @@ def verify_contract(c, src_index, unroll=0, timeout_ms=20000, registry=REGISTRY,
                 set_loop_ordinals(inner[0])          # loop ordinals of a nested contract count inside the inner function
                 cfr = Frame(f, None, fn.__globals__)
                 cfr.locals.update(c.closure(cx))
+                # names bound by the OUTER function that the contract's closure() does not describe (e.g. a helper the code
+                # now defines next to the inner function): reading one is "contract not applicable", not a NameError of the
+                # program (found by the behaviour-preserving refactoring benign/C20-b1)
+                from .values import Unsupplied
+                outer_bound = {x.id for x in ast.walk(fnode) if isinstance(x, ast.Name) and isinstance(x.ctx, ast.Store)} | \
+                    {x.name for x in ast.walk(fnode) if isinstance(x, (ast.FunctionDef, ast.AsyncFunctionDef, ast.ClassDef)) and x is not fnode} | \
+                    {x.arg for x in ast.walk(fnode.args) if isinstance(x, ast.arg)}
+                inner_own = {x.id for x in ast.walk(inner[0]) if isinstance(x, ast.Name) and isinstance(x.ctx, ast.Store)} | \
+                    {x.arg for x in ast.walk(inner[0].args) if isinstance(x, ast.arg)}
+                inner_nonlocal = {nm for x in ast.walk(inner[0]) if isinstance(x, ast.Nonlocal) for nm in x.names}
+                for nm in outer_bound - (inner_own - inner_nonlocal):
+                    if nm not in cfr.locals and nm != c.nested:
+                        cfr.locals[nm] = Unsupplied(nm)
                 q = c.nested_qualname
                 a_ = inner[0].args
                 f = InterpFunction(inner[0], cfr, fn.__globals__, q, None, None, [it.eval(d, cfr) for d in a_.defaults], {})
